@@ -118,3 +118,35 @@ Definition world_indices_ec (corr : list (list bool)) (types : list string) (n :
          | Err e => Err e
          end
   end.
+
+(* ---- wcs = extra_coords with coordinates coupled to several cube axes ---------------------------------------
+   _generate_world_coords evaluates the extra coords' WCS over ITS pixel dimensions (dimension j has the range of
+   the cube's pixel axis pm[j]); the array of a world axis comes out with its dimensions in the reversed order of
+   those pixel dimensions and is then transposed (np.transpose by argsort of minus the cube pixel axes) so that
+   they are in the cube's array-axis order. *)
+(* transposition of a row-major array whose dimension k carries the (distinct) label labels[k]: the result has its
+   dimensions in increasing label order *)
+Definition relabel (n : nat) (labels : list nat) (sh : list Z) (vals : list Q) : list Z * list Q :=
+  let dst := filter (fun a => existsb (Nat.eqb a) labels) (seq 0 n) in
+  let sh' := map (lookup labels sh) dst in
+  (sh', map (fun e' => nth (Z.to_nat (ravel sh (map (lookup dst e') labels))) vals 0%Q) (box sh')).
+
+(* the extra coords' own array shape: reversed pixel-dimension order *)
+Definition ec_vshape (cshape : list Z) (pm : list nat) : list Z :=
+  rev (map (fun p => nth (length cshape - 1 - p) cshape 0) pm).
+(* the cube array axis of the extra coords' own array axis v *)
+Definition ec_label (n : nat) (pm : list nat) (v : nat) : nat := (n - 1 - nth (length pm - 1 - v) pm n)%nat.
+Definition ec_labels (corr : list (list bool)) (n : nat) (pm : list nat) (w : nat) : list nat :=
+  map (ec_label n pm) (world_axes corr (length pm) w).
+
+Definition world_array_ec (W : list Q -> list Q) (corr : list (list bool)) (cshape : list Z) (pm : list nat)
+           (corners : bool) (w : nat) : list Z * list Q :=
+  let va := world_array W corr (ec_vshape cshape pm) corners w in
+  relabel (length cshape) (ec_labels corr (length cshape) pm w) (fst va) (snd va).
+
+(* the position, in the extra coords' pixel dimensions, of the centre / corner of cube element E *)
+Definition ec_elem_pixel (n : nat) (pm : list nat) (corners : bool) (E : list Z) : list Q :=
+  map (fun p => wc_range_val corners (nth (n - 1 - p) E 0)) pm.
+(* the cube array axes (ascending) world axis w depends on through the mapping *)
+Definition ec_axes (corr : list (list bool)) (n : nat) (pm : list nat) (w : nat) : list nat :=
+  filter (fun a => existsb (fun j => Nat.eqb (nth j pm n) (n - 1 - a) && cget corr w j) (seq 0 (length pm))) (seq 0 n).
